@@ -4,7 +4,7 @@
            | known:<class> (violates; member of a class listed in known_findings.json)
            | decode-error (harness bug, never a verdict) *)
 From Coq Require Import List String Bool.
-From AV Require Import Model.Sexp Model.CaseC13 Model.CaseC16 Model.CaseC20 Model.CaseC09 Model.CaseC19 Model.CaseV Model.CaseP Model.CaseI Model.CaseC10 Model.CaseC15 Model.CaseC18.
+From AV Require Import Model.Sexp Model.CaseC13 Model.CaseC16 Model.CaseC20 Model.CaseC09 Model.CaseC19 Model.CaseV Model.CaseP Model.CaseI Model.CaseC10 Model.CaseC15 Model.CaseC18 Model.CaseC17.
 Import ListNotations.
 Open Scope string_scope.
 
@@ -22,6 +22,7 @@ Definition check_case (e : sexp) : sexp :=
           else if p =? "C10" then check_C10 args
           else if p =? "C15" then check_C15 args
           else if p =? "C18" then check_C18 args
+          else if p =? "C17" then check_C17 args
           else if p =? "C11" then check_C11 args
           else if p =? "C14" then check_C14 args
           else [A "unknown-property"]))
